@@ -27,7 +27,8 @@ CASE_TIMEOUT_S = 20
 LEVEL_TEXT = (
     "Proved in Lean 4 at the element type Masked = Option Int (none = masked), for every blocking, split_every and "
     "valid depth: ma_reduce_eq (sum/prod/min/max skip masked elements and are masked iff everything is masked — "
-    "K1 treeReduce_eq_fold at the lifted monoid, all-masked and empty blocks included), ma_count_eq, ma_mean_eq "
+    "K1 treeReduce_eq_fold at the lifted monoid, all-masked and empty blocks included), ma_reduce_nd_eq (the same over "
+    "several axes at once, any per-axis split_every — the n-d tree theorem at the lifted commutative monoid), ma_count_eq, ma_mean_eq "
     "((masked total, #unmasked)), ma_elemwise_den (block-wise binary op = whole-array op, mask = OR), filled_den, "
     "getmaskarray_den, masked_where_den, ma_cumsum_eq (sequential cumsum/cumprod on masked blocks = np.ma.cumsum). "
     "Validated against numpy.ma only: fill_value propagation, dtype promotion, var/std/any/all, masked_* "
